@@ -34,6 +34,8 @@ static std::string judge(const Case &cs, const Out &o) {
     for (int i = 0; i < cs.m && (cs.ops & 16); ++i) {
         double s = 0; for (int j = 0; j < cs.n; ++j) if (cs.G.st(i, j)) s += cs.G(i, j) * (1 + (j * 3) % 5);
         double y = 2 * s - (2 - (i % 3)), r = (7 + i) - s;
+        double s0 = 0; for (int j = 0; j < cs.n; ++j) if (cs.G.st(i, j)) s0 += cs.G(i, j) * (2 - (j % 4));
+        if (o.y0[i] != s0) return vf::KS() << "first of two consecutive products on one object: row " << i << " got " << o.y0[i] << " want " << s0 << " (the product with the second vector gives " << s << ")";
         if (o.y[i] != y) return vf::KS() << "spmv row " << i << " got " << o.y[i] << " want " << y;
         if (o.r[i] != r) return vf::KS() << "residual row " << i << " got " << o.r[i] << " want " << r;
     }
